@@ -165,6 +165,7 @@ func c12OfficialRoaring(bits []c12Bit) []byte {
 type c12Cfg struct {
 	cacheType string
 	size      uint32
+	mutex     bool // a mutex field: setting (row, col) takes col away from every other row — two counts change
 }
 
 type c12Stats struct {
@@ -201,6 +202,20 @@ func (in *c12Inst) count(row uint64, filter int64) uint64 {
 	return n
 }
 
+// setBit applies one set to the model: on a mutex field the column leaves every other row.
+func (in *c12Inst) setBit(r uint64, c uint) {
+	if in.cfg.mutex {
+		for o := range in.bits {
+			if o != r && in.bits[o]&(1<<c) != 0 {
+				in.bits[o] &^= 1 << c
+				in.wrote(o)
+			}
+		}
+	}
+	in.bits[r] |= 1 << c
+	in.wrote(r)
+}
+
 func (in *c12Inst) wrote(rows ...uint64) {
 	in.fresh = false
 	for _, r := range rows {
@@ -235,8 +250,7 @@ func (in *c12Inst) Apply(op vx.Op) (got, want string) {
 	case "Set":
 		r, c := uint64(op.Args[0]), uint64(op.Args[1])
 		_, err := in.n.query(fmt.Sprintf("Set(%d, f=%d)", c, r))
-		in.bits[r] |= 1 << c
-		in.wrote(r)
+		in.setBit(r, uint(c))
 		return c12Err(err)
 	case "Clear":
 		r, c := uint64(op.Args[0]), uint64(op.Args[1])
@@ -273,7 +287,7 @@ func (in *c12Inst) Apply(op vx.Op) (got, want string) {
 		}
 		for _, b := range p {
 			if op.Name == "Import" {
-				in.bits[b.row] |= 1 << b.col
+				in.setBit(b.row, uint(b.col))
 			} else {
 				in.bits[b.row] &^= 1 << b.col
 			}
@@ -704,12 +718,16 @@ func c12Key(cf c12Cfg, p []vx.Op, got, want string) string {
 			culprit = o.Name
 		}
 	}
-	return fmt.Sprintf("%s %s %s last-write=%s", cf.cacheType, clause, what, culprit)
+	kind := cf.cacheType
+	if cf.mutex {
+		kind = "mutex/" + kind
+	}
+	return fmt.Sprintf("%s %s %s last-write=%s", kind, clause, what, culprit)
 }
 
 func TestVerif_C12(t *testing.T) {
 	c := vx.NewCheck("C12", "model_checking",
-		"all operation sequences (Set, Clear, ClearRow, Store, bulk import set/clear, roaring import set/clear in both encodings, explicit recalculation, and TopN reads with/without n, ids, threshold, filter) on a real set field for cache ∈ {ranked,lru} x size ∈ {1,2,3,50000}: exhaustive DFS to the stated depth, then state-merged BFS over (bits, rows touched, freshness, cache entries/rankings/threshold or LRU order, row cache, storage layout); distinct = distinct canonical end states")
+		"all operation sequences (Set, Clear, ClearRow, Store, bulk import set/clear, roaring import set/clear in both encodings, explicit recalculation, and TopN reads with/without n, ids, threshold, filter) on a real set field for cache ∈ {ranked,lru} x size ∈ {1,2,3,50000} and on a real mutex field (Set / Clear / ClearRow / bulk import only) for cache ∈ {ranked,lru} x size ∈ {2,50000}: exhaustive DFS to the stated depth, then state-merged BFS over (bits, rows touched, freshness, cache entries/rankings/threshold or LRU order, row cache, storage layout); distinct = distinct canonical end states")
 	var nodesMu sync.Mutex
 	var nodes []*c12Node
 	pool := &sync.Pool{New: func() interface{} {
@@ -733,21 +751,45 @@ func TestVerif_C12(t *testing.T) {
 	var cfgs []c12Cfg
 	for _, sz := range []uint32{1, 2, 3, 50000} {
 		for _, ct := range []string{CacheTypeRanked, CacheTypeLRU} {
-			cfgs = append(cfgs, c12Cfg{ct, sz})
+			cfgs = append(cfgs, c12Cfg{ct, sz, false})
+		}
+	}
+	// mutex fields: every set moves a column between two rows, so two counts change per write
+	for _, sz := range []uint32{2, 50000} {
+		for _, ct := range []string{CacheTypeRanked, CacheTypeLRU} {
+			cfgs = append(cfgs, c12Cfg{ct, sz, true})
 		}
 	}
 	for _, cf := range cfgs {
 		cf := cf
+		alpha := alpha
+		core := c12CoreAlphabet()
+		if cf.mutex {
+			// roaring imports and Store write rows wholesale and do not enforce one-row-per-column
+			keep := func(in []vx.Op) (out []vx.Op) {
+				for _, o := range in {
+					if !strings.HasPrefix(o.Name, "Roaring") && o.Name != "Store" {
+						out = append(out, o)
+					}
+				}
+				return out
+			}
+			alpha, core = keep(alpha), keep(core)
+		}
 		newInst := func() vx.Instance {
 			n := pool.Get().(*c12Node)
-			if _, err := n.idx.CreateField("f", OptFieldTypeSet(cf.cacheType, cf.size)); err != nil {
+			opt := OptFieldTypeSet(cf.cacheType, cf.size)
+			if cf.mutex {
+				opt = OptFieldTypeMutex(cf.cacheType, cf.size)
+			}
+			if _, err := n.idx.CreateField("f", opt); err != nil {
 				panic(err)
 			}
 			return &c12Inst{cfg: cf, pool: pool, n: n, st: st, chk: c, start: time.Now(), bits: map[uint64]uint8{}, touched: map[uint64]bool{}}
 		}
 		key := func(p []vx.Op, g, w string) string { return c12Key(cf, p, g, w) }
 		h := &vx.Harness{MultiProcess: true, Alphabet: alpha, New: newInst, Key: key}
-		hCore := &vx.Harness{MultiProcess: true, Alphabet: c12CoreAlphabet(), New: newInst, Key: key}
+		hCore := &vx.Harness{MultiProcess: true, Alphabet: core, New: newInst, Key: key}
 		c.RunDFS(h, c.Pick(2, 3))
 		c.ConfirmViolations(h)
 		c.RunDFS(hCore, c.Pick(3, 4))
